@@ -1,6 +1,119 @@
-import BstreamVerif.Model.Forkable
-import BstreamVerif.Spec.Consumer
+import BstreamVerif.Lemmas.StepCheckSound
+import BstreamVerif.Props.C03
+/-!
+# C02 — finality is sound, ordered, gap-free, never revoked; stalled blocks are dead
+
+The consumer `CS` of C01 accepts an Irreversible event only for its oldest pending block and then rests on it:
+`history_discipline` (C01) therefore already says that along every history the blocks announced irreversible are,
+in order, the oldest pending blocks of the consumer's chain — a gap-free parent-linked chain extending the LIB.
+Here: what acceptance means, the announced segment is a path from the old to the new LIB, its top carries the
+LIB number the triggering head declares, and stalled blocks are off the segment and within its heights.
+The starting-LIB-announced-first case (LIB discovery, inclusive start) is covered by the monitors only.
+-/
 namespace BstreamVerif.Props.C02
-open BstreamVerif BstreamVerif.Forkable BstreamVerif.Consumer
+open BstreamVerif BstreamVerif.Forkable BstreamVerif.ForkDB
+
+/-- an accepted Irreversible event is the oldest pending block; the consumer now rests on it -/
+theorem irreversible_is_oldest_pending (c c' : CS) (blk : Blk) (h : c.apply (.irreversible, blk) = some c') :
+    c.pend = blk.id :: c'.pend ∧ c'.lib = blk.id := by
+  unfold CS.apply at h
+  simp only at h
+  cases hp : c.pend with
+  | nil => rw [hp] at h; cases h
+  | cons x r =>
+    rw [hp] at h
+    simp only at h
+    split at h
+    · rename_i hx
+      injection h with h
+      subst h
+      exact ⟨by rw [hx], hx⟩
+    · cases h
+
+/-- and it leaves the pending list for good: it cannot be undone afterwards (the pending list has no duplicates) -/
+theorem final_leaves_pending (s : FState) (P : List Id) (hI : Inv s P) : P.Nodup ∧ s.db.libRef.id ∉ P :=
+  ⟨isPath_nodup _ _ _ hI.path hI.libNotin, hI.libNotin⟩
+
+/-- an accepted Undo is the newest pending block: never a final one -/
+theorem undo_is_newest_pending (c c' : CS) (blk : Blk) (h : c.apply (.undo, blk) = some c') :
+    c.pend = c'.pend ++ [blk.id] ∧ c'.lib = c.lib := by
+  unfold CS.apply at h
+  simp only at h
+  split at h
+  · rename_i hl
+    injection h with h
+    subst h
+    refine ⟨?_, rfl⟩
+    rcases List.eq_nil_or_concat c.pend with hn | ⟨l, x, hx⟩
+    · rw [hn] at hl; simp at hl
+    · rw [List.concat_eq_append] at hx
+      rw [hx] at hl ⊢
+      simp at hl
+      simp [hl]
+  · cases h
+
+/-- the announced segment is a parent-linked path of stored blocks from the old LIB (exclusive) to the new LIB -/
+theorem segment_is_path (db : DB) (fsb : Nat) (newLIB : Ref) (h : (db.hasNewIrreversibleSegment fsb newLIB).1 = true)
+    (hl : db.hasLIB = true) :
+    IsPath db db.libRef.id ((db.hasNewIrreversibleSegment fsb newLIB).2.1.map (·.blk.id)) ∧
+    topOf db.libRef.id ((db.hasNewIrreversibleSegment fsb newLIB).2.1.map (·.blk.id)) = newLIB.id ∧
+    db.libRef.id ≠ newLIB.id := by
+  obtain ⟨hne, seg, r, hrev, _, hseg, _⟩ := hasNew_inv db fsb newLIB h
+  have hr : r = true := revSegAux_reach _ _ _ _ _ _ _ _ hl hrev
+  subst hr
+  obtain ⟨h1, h2, _⟩ := reversibleSegment_sound _ _ _ _ hrev
+  rw [hseg]
+  exact ⟨h1, h2, hne⟩
+
+/-- its top is the ancestor of the head at the LIB number the head declares -/
+theorem bounded_by_declared_lib (db : DB) (head : Blk) (h : (db.blockInChain head.ref head.lib).id ≠ "") :
+    (db.blockInChain head.ref head.lib).num = head.lib := Props.C03.lib_follows_declared db head h
+
+theorem mem_insertById (e x : Entry) (l : List Entry) : x ∈ insertById e l ↔ x = e ∨ x ∈ l := by
+  induction l with
+  | nil => simp [insertById]
+  | cons a t ih =>
+    unfold insertById
+    split
+    · simp
+    · simp only [List.mem_cons, ih]
+      constructor
+      · rintro (h | h | h)
+        · exact Or.inr (Or.inl h)
+        · exact Or.inl h
+        · exact Or.inr (Or.inr h)
+      · rintro (h | h | h)
+        · exact Or.inr (Or.inl h)
+        · exact Or.inl h
+        · exact Or.inr (Or.inr h)
+
+theorem mem_sortById (x : Entry) (l : List Entry) : x ∈ sortById l ↔ x ∈ l := by
+  induction l with
+  | nil => simp [sortById]
+  | cons a t ih =>
+    simp only [sortById, List.foldr_cons, List.mem_cons]
+    rw [mem_insertById]
+    unfold sortById at ih
+    rw [ih]
+
+/-- stalled blocks are stored blocks off the announced segment whose heights lie within it: at or below the
+    final height, and never one of the blocks announced final -/
+theorem stalled_off_segment (db : DB) (seg : List Entry) (x : Entry) (h : x ∈ db.stalledInSegment seg) :
+    x ∈ db.entries ∧ x.blk.id ∉ seg.map (·.blk.id) ∧
+    ∃ f l, seg.head? = some f ∧ seg.getLast? = some l ∧ f.blk.num ≤ x.blk.num ∧ x.blk.num ≤ l.blk.num := by
+  unfold DB.stalledInSegment at h
+  split at h
+  · simp at h
+  · split at h
+    · rename_i f l hf hl
+      rw [mem_sortById] at h
+      simp only [List.mem_filter, Bool.and_eq_true, Bool.not_eq_true', decide_eq_true_eq] at h
+      refine ⟨h.1, ?_, f, l, hf, hl, h.2.1.2, h.2.2⟩
+      intro hm
+      obtain ⟨y, hy, hye⟩ := List.mem_map.mp hm
+      have := h.2.1.1
+      rw [List.any_eq_false] at this
+      exact this y hy (by simp [hye])
+    · simp at h
 
 end BstreamVerif.Props.C02
